@@ -15,6 +15,7 @@ package main
 
 import (
 	"fmt"
+	"runtime"
 	"sort"
 	"strings"
 	"sync"
@@ -98,6 +99,12 @@ func body(r *vf.Run) {
 		if r.Violations() > 20 {
 			break
 		}
+	}
+	// Stress stage: long runs on tiny caches so that narrow windows between a lookup and
+	// the reference being taken (or between eviction and finalisation) are hit.
+	rounds := r.N(24, 400)
+	for i := 0; i < rounds && r.Violations() <= 20; i++ {
+		stressRound(r, i, r.RNG(1<<40, uint64(i)))
 	}
 	r.AccountOwnRaces([]string{"util/cacheutil."}, nil)
 	r.Assume("porcupine v1.3.0 linearizability checker and the 2 sequential models in this file are correct")
@@ -538,5 +545,178 @@ func lruModel(capacity int) porcupine.Model {
 			return true, st
 		},
 		Equal: func(a, b any) bool { return a.(string) == b.(string) },
+	}
+}
+
+
+// stressRound hammers one tiny cache with writers (Add + release, occasionally Remove /
+// expiry / evicting release) and readers (Get + hold + release). Monitors, all on
+// per-value atomics only:
+//   - a value obtained by Get or Add must not have been finalised while the caller holds it
+//     (sound: correct code takes the reference under the cache lock before handing the value
+//     out, and finalises only after every reference was dropped);
+//   - after the drain every value that entered the cache was finalised exactly once and no
+//     other value was finalised.
+func stressRound(r *vf.Run, idx int, rng *prng.R) {
+	r.Eval(1)
+	ttl := rng.Chance(1, 3)
+	capacity := rng.Range(1, 2)
+	nkeys := rng.Range(1, 3)
+	writers, readers := rng.Range(2, 5), rng.Range(2, 5)
+	perWriter := 6000
+	perReader := 12000
+	vals := make([]valState, writers*perWriter+1)
+	onEvicted := func(k string, v any) {
+		id := v.(int)
+		vals[id].evCount.Add(1)
+	}
+	var tc *cacheutil.TTLCache
+	var lc *cacheutil.LRUCache
+	kind := "lru"
+	if ttl {
+		kind = "ttl"
+		tc = cacheutil.NewTTLCache(time.Hour)
+		tc.OnEvicted = onEvicted
+	} else {
+		lc = cacheutil.NewLRUCache(capacity)
+		lc.OnEvicted = onEvicted
+	}
+	desc := fmt.Sprintf("stress %s cap=%d keys=%d writers=%d readers=%d", kind, capacity, nkeys, writers, readers)
+	replay := map[string]any{"stress_round": idx, "config": desc}
+	var heldFinalised, getHits, deferredSeen atomic.Int64
+	check := func(v int) {
+		if vals[v].evCount.Load() != 0 {
+			heldFinalised.Add(1)
+		}
+	}
+	var wg sync.WaitGroup
+	start := make(chan struct{})
+	for w := 0; w < writers; w++ {
+		wg.Add(1)
+		go func(w int, rg *prng.R) {
+			defer wg.Done()
+			<-start
+			for i := 0; i < perWriter; i++ {
+				id := w*perWriter + i + 1
+				k := key(rg.Intn(nkeys))
+				var got any
+				var added bool
+				var dT func(bool)
+				var dL func()
+				if ttl {
+					got, dT, added = tc.Add(k, id)
+				} else {
+					got, dL, added = lc.Add(k, id)
+				}
+				if added {
+					vals[id].added.Store(true)
+				}
+				check(got.(int))
+				if rg.Chance(1, 4) {
+					runtime.Gosched()
+					check(got.(int))
+				}
+				x := rg.Intn(10)
+				if ttl {
+					switch {
+					case x == 0:
+						tc.Remove(k)
+						dT(false)
+					case x == 1:
+						tc.VerifFireExpiry(k)
+						dT(false)
+					case x < 5:
+						dT(true)
+					default:
+						dT(false)
+					}
+				} else {
+					if x == 0 {
+						lc.Remove(k)
+					}
+					dL()
+				}
+			}
+		}(w, rng.Derive(uint64(w)))
+	}
+	for q := 0; q < readers; q++ {
+		wg.Add(1)
+		go func(rg *prng.R) {
+			defer wg.Done()
+			<-start
+			for i := 0; i < perReader; i++ {
+				k := key(rg.Intn(nkeys))
+				var got any
+				var ok bool
+				var dT func(bool)
+				var dL func()
+				if ttl {
+					got, dT, ok = tc.Get(k)
+				} else {
+					got, dL, ok = lc.Get(k)
+				}
+				if !ok {
+					continue
+				}
+				getHits.Add(1)
+				v := got.(int)
+				check(v)
+				if rg.Chance(1, 3) {
+					runtime.Gosched()
+				}
+				check(v)
+				if ttl {
+					dT(false)
+				} else {
+					dL()
+				}
+				if vals[v].evCount.Load() != 0 {
+					deferredSeen.Add(1) // finalised right after (or soon after) our release
+				}
+			}
+		}(rng.Derive(1000 + uint64(q)))
+	}
+	close(start)
+	wg.Wait()
+	for k := 0; k < nkeys; k++ {
+		if ttl {
+			tc.Remove(key(k))
+		} else {
+			lc.Remove(key(k))
+		}
+	}
+	if heldFinalised.Load() > 0 {
+		r.Violate(kind+":stress:finalised-while-held", fmt.Sprintf("a value handed out by Get/Add had already been finalised while the caller still held it (%d observations)", heldFinalised.Load()), replay)
+	}
+	never, twice, notAdded := 0, 0, 0
+	for id := 1; id < len(vals); id++ {
+		c := vals[id].evCount.Load()
+		if vals[id].added.Load() {
+			if c == 0 {
+				never++
+			} else if c > 1 {
+				twice++
+			}
+		} else if c != 0 {
+			notAdded++
+		}
+	}
+	if never > 0 {
+		r.Violate(kind+":stress:never-finalised", fmt.Sprintf("%d values that entered the cache were never finalised after removal and release", never), replay)
+	}
+	if twice > 0 {
+		r.Violate(kind+":stress:finalised-twice", fmt.Sprintf("%d values were finalised more than once", twice), replay)
+	}
+	if notAdded > 0 {
+		r.Violate(kind+":stress:finalised-not-added", fmt.Sprintf("%d values whose Add reported added=false were finalised", notAdded), replay)
+	}
+	r.Count("stress_rounds_"+kind, 1)
+	r.Count("stress_get_hits", int(getHits.Load()))
+	r.Count("stress_finalised_by_readers_release", int(deferredSeen.Load()))
+	if getHits.Load() > 0 && deferredSeen.Load() > 0 {
+		r.NonTrivial(desc + fmt.Sprint(idx))
+	}
+	if idx < 2 {
+		r.Sample(map[string]any{"stress_round": idx, "config": desc, "get_hits": getHits.Load()})
 	}
 }
